@@ -230,6 +230,17 @@ func (g *goGen) value(name string, t types.Type) string {
 		}
 		fmt.Fprintf(&g.decls, "\t%s := %s(%sfull[:%d:%d])\n", vn, g.typeStr(t), vn, L, C)
 		return vn
+	case *types.Array:
+		var sb strings.Builder
+		sb.WriteString(g.typeStr(t) + "{")
+		for i := int64(0); i < u.Len(); i++ {
+			if i > 0 {
+				sb.WriteString(", ")
+			}
+			sb.WriteString(g.value(fmt.Sprintf("%s#%d", name, i), u.Elem()))
+		}
+		sb.WriteString("}")
+		return sb.String()
 	case *types.Struct:
 		var sb strings.Builder
 		sb.WriteString(g.typeStr(t) + "{")
@@ -572,12 +583,23 @@ func (h *hydrator) val(j interface{}, t types.Type) SVal {
 			}
 		}
 		return &SliceV{Obj: o, IsNil: tb.False(), Off: tb.BVi(64, 0), Len: tb.BVi(64, ln), Cap: tb.BVi(64, ln), Elem: u.Elem()}
+	case *types.Array:
+		av := &ArrayV{T: u, Leaves: map[string]*Content{}}
+		if _, ok := scalarSort(u.Elem()); ok {
+			c := x.ContentConst(x.zeroValue(u.Elem()).(*Term))
+			el, _ := m["elems"].([]interface{})
+			for i, e := range el {
+				c = x.StoreC(c, tb.BVi(64, int64(i)), h.val(e, u.Elem()).(*Term))
+			}
+			av.Leaves[""] = c
+		}
+		return av
 	case *types.Pointer:
 		if n, _ := m["nilptr"].(bool); n {
 			return &PtrV{IsNil: tb.True(), Obj: x.dummy(), Elem: u.Elem()}
 		}
 		o := x.newObject("replay", false, u.Elem(), true)
-		h.st.mem[o] = &ObjState{Val: h.val(m["ptr"], u.Elem())}
+		h.st.mem[o] = &ObjState{Val: h.x.memInit(h.st, o, h.val(m["ptr"], u.Elem()))}
 		return &PtrV{IsNil: tb.False(), Obj: o, Elem: u.Elem()}
 	case *types.Struct:
 		sm, _ := m["struct"].(map[string]interface{})
@@ -650,6 +672,18 @@ func (h *hydrator) inputFromModel(name string, t types.Type, m Model) SVal {
 			h.st.mem[o] = &ObjState{Leaves: map[string]*Content{"": c}, ALen: os.ALen}
 		}
 		return &SliceV{Obj: o, IsNil: tb.False(), Off: tb.BVi(64, 0), Len: tb.BVc(64, ln), Cap: tb.BVc(64, ln), Elem: u.Elem()}
+	case *types.Array:
+		av := &ArrayV{T: u, Leaves: map[string]*Content{}}
+		if s, ok := scalarSort(u.Elem()); ok && s.K == KBV {
+			c := x.ContentConst(x.zeroValue(u.Elem()).(*Term))
+			for i := int64(0); i < u.Len(); i++ {
+				if v, ok := m[fmt.Sprintf("%s#%d", name, i)]; ok {
+					c = x.StoreC(c, tb.BVi(64, i), tb.BVc(s.W, v))
+				}
+			}
+			av.Leaves[""] = c
+		}
+		return av
 	case *types.Struct:
 		sv := &StructV{T: t}
 		for i := 0; i < u.NumFields(); i++ {
@@ -661,7 +695,7 @@ func (h *hydrator) inputFromModel(name string, t types.Type, m Model) SVal {
 			return &PtrV{IsNil: tb.True(), Obj: x.dummy(), Elem: u.Elem()}
 		}
 		o := x.newObject("in."+name, false, u.Elem(), true)
-		h.st.mem[o] = &ObjState{Val: h.inputFromModel(name+"^", u.Elem(), m)}
+		h.st.mem[o] = &ObjState{Val: h.x.memInit(h.st, o, h.inputFromModel(name+"^", u.Elem(), m))}
 		return &PtrV{IsNil: tb.False(), Obj: o, Elem: u.Elem()}
 	case *types.Interface:
 		return &IfaceV{Tag: tb.Intc(0), Id: tb.Intc(0), Static: t}
